@@ -266,7 +266,15 @@ func (s *Session) Run(ctx context.Context, dir string, args ...string) error {
 									return fmt.Errorf("Unmarshal error %v for %s", err, js)
 								}
 							} else {
+								// Match what the subprocess emits as it
+								// would be matched after parsing: a
+								// number in a YAML pattern is an int,
+								// which the matcher doesn't find among
+								// float64s.
 								if js, err = json.Marshal(&pattern); err != nil {
+									return err
+								}
+								if err = json.Unmarshal(js, &pattern); err != nil {
 									return err
 								}
 							}
